@@ -10,7 +10,7 @@ from . import c17
 ID = 'C18'
 LEVEL = 'exploration'
 RULE = ('(a) vsched harness (see C17): 2-6 threads on one shared memory (min 1, max 6 pages; defined by the module or imported from the embedder), generated lists of memory.grow(delta '
-        'in {0,1,2,3,5, 2^32-1}), memory.size, atomic loads/stores, and the other users of the memory's mutex: notify with any count (nobody waits: result 0) and waits that do not block; the scheduler (which reports an unlock by a thread that does not hold the mutex) yields at every mutex operation, so a thread can be '
+        'in {0,1,2,3,5, 2^32-1}), memory.size, atomic loads/stores, and the other users of the mutex of the memory: notify with any count (nobody waits: result 0) and waits that do not block; the scheduler (which reports an unlock by a thread that does not hold the mutex) yields at every mutex operation, so a thread can be '
         'preempted between looking at the size and taking the lock; several generated decision strings per program. Oracle: '
         'successful grows ordered by their acquisition of the memory mutex must each return the page count produced by their '
         'predecessors (one sequential order, all old sizes distinct), never exceed the maximum, final pages/size = initial + sum '
